@@ -250,6 +250,13 @@ func serveTCPSocket(conn *net.TCPConn, addr *net.TCPAddr, inbound chan<- Service
 			return
 		}
 
+		// A frame cannot be shorter than its own header. Such a length would consume less than
+		// the header just inspected, so the stream could never advance past it.
+		if totalLen < 6 {
+			util.Log(conn, "Invalid total length in header: %d", totalLen)
+			return
+		}
+
 		buffer := make([]byte, totalLen)
 		len, err := io.ReadFull(connBuffer, buffer)
 		if err != nil {
